@@ -324,7 +324,7 @@ pub fn property() -> Property {
         parts: vec![Box::new(GenPart {
             name: "single-call",
             rule: "see property rule",
-            cases: (1_500_000, 5_000_000),
+            cases: (1_500_000, 30_000_000),
             fuzz_decode: Some(crate::fuzzdec::c09_case),
             strategy,
             check,
